@@ -135,7 +135,12 @@ def make_files(payload):
         present = [c for i, c in enumerate(RAW) if mask >> i & 1]
         for hk in payload['header_kinds']:
             n = rng.choice([1, 7, 12])
-            box, velz, ppd = rng.choice([(2000.0, 3000.0, 64.0), (500.0, 1250.0, 6912.0), (1024.0, 1.0, 128.0)])
+            # header ppd is a float: an exact integer value, or the cube root of the particle number as a simulation writes it
+            # (64**3 ** (1/3) = 3.9999999999999996 * 16: just below the integer; 1728**3 just above)
+            box, velz, ppd = rng.choice([(2000.0, 3000.0, 64.0), (500.0, 1250.0, 6912.0), (1024.0, 1.0, 128.0),
+                                         (2000.0, 3000.0, 262144 ** (1 / 3.)),          # 63.999999999999986
+                                         (500.0, 1250.0, 5159780352 ** (1 / 3.)),       # 1727.9999999999993
+                                         (1024.0, 1.0, 128.00000000000003)])
             header = {'BoxSize': box, 'VelZSpace_to_kms': velz, 'ppd': ppd, 'SimName': f'Synthetic_{mask}_{hk}', 'Redshift': 0.5}
             if hk == 'lightcone':
                 header.update(OutputType='LightCone', SimSet='AbacusSummit', ParticleSubsampleA=0.03, ParticleSubsampleB=0.07)
